@@ -94,9 +94,12 @@ example : WellFormed
 
 /-- The reader inverts the specification's renderer: for EVERY schema value with a query root (arbitrary names,
     descriptions, nesting depth of list / non-null types, arguments, deprecations, directive definitions), reading its
-    introspection result (spec §4 encoding, every optional key present) succeeds and returns the schema itself — no
-    field, argument, interface, enum value, input field, `ofType` level, `isDeprecated`/`deprecationReason`,
-    `isRepeatable`, default-value string or root name is lost or invented. -/
+    introspection result (spec §4 encoding, every optional key present) succeeds and returns `Introspect.readBack s` —
+    the schema itself with the components outside a definition's kind emptied (`cleanType`), the first definition of a
+    repeated type / directive name kept and the position bit `explicitRoots` false (`= s` up to that bit when `s` is
+    well-formed with distinct directive names: `C15_reader_identity`): no field, argument, interface, enum value, input
+    field, `ofType` level, `isDeprecated`/`deprecationReason`, `isRepeatable`, default-value string or root name is lost
+    or invented.  Nothing is stated about JSON that is not such a rendering (K only). -/
 theorem C15_reader_inverts_renderer (s : Schema) (url : String → Option String) (q : String)
     (hq : s.roots.query = some q) :
     Introspect.fromIntrospection (IntrospectSpec.encode s url) = .ok (Introspect.readBack s) :=
@@ -283,46 +286,60 @@ theorem C15_routes_agree {Cfg Doc Err Decl : Type} (checkOp : Lookup → Doc →
   exact ⟨s, hs, fun D => C15_check_verdict_eq checkOp he D, fun c D a => C15_types_eq decls he c D a⟩
 
 /-!
-## Wave 3 — the concrete consumers: see `Props/C15Concrete.lean`
+## Wave 3 — the concrete consumers: see `Props/C15Concrete.lean` and `Props/C15Resolvers.lean`
 
-The hypothesis of `C15_routes_agree` ("reads the schema only through the lookup interface") is now PROVED for the
-executable models of the real consumers, which read a schema through the document view `Gql.Schema`:
+`C15_check_eq` / `C15_check_verdict_eq` / `C15_types_eq` / `C15_routes_agree` / `_check` / `_types` above keep the checker
+and the generator ABSTRACT (any function `Lookup → …`).  Their hypothesis ("reads the schema only through the lookup
+interface") is PROVED for the executable models of the real consumers, which read a schema through the document view
+`Gql.Schema`, and the route equality is stated for them directly (`Props/C15Concrete.lean`):
 `C15_lookups_factor` (every lookup of the operation checker model is a function of `lookupOf`),
 `C15_checkOp_routes_eq` / `_verdict` / `_eq_partial` (operation checker `CheckOp.checkOp`: same diagnostics on the two
-routes), `C15_implTree_routes_eq` / `C15_opDecls_routes_eq` (operation type printer `OpTypes`: same trees up to leaf
-positions, equal declarations), `C15_schemaDecls_routes_eq` / `_same_aliases` / `_namespace_eq` /
-`_representative_eq` (schema declaration printer `SchemaDecls`: equal statements per alias), and the SDL half against the
-specification (`C15_sdl_route_is_spec`).  The side conditions are the documented exemptions, each shown necessary by a
-kernel-checked witness (`…_counterexample`).
+routes, for `ValidParsed M` and `docOk D`, modulo `normRoot`), `C15_implTree_routes_eq` / `C15_opDecls_routes_eq`
+(operation type printer `OpTypes`: same trees up to leaf positions, equal declarations), `C15_schemaDecls_routes_eq` /
+`_same_aliases` / `_namespace_eq` / `_representative_eq` (schema declaration printer `SchemaDecls`, under `DeclsOk`: equal
+statements per alias), and the SDL half against the specification (`C15_sdl_route_is_spec`).  The documented exemptions
+and the conditions `docOk`, closed references, `ScalarsConfigured` are each shown necessary by a kernel-checked witness
+(`…_counterexample`); the conditions of `ValidResolved`, the parsed position, "no `__*` root / type names" and
+`UserNotBuiltin` are hypotheses that are NOT shown necessary.
+
+Also theorems (`Props/C15Resolvers.lean`; `ValidParsed M`, `UserNotBuiltin M`): the resolvers file and the whole-file
+statements of the schema declaration file. Resolvers file (C10's model `ResolverDecls.resolversFile`): per field the same
+`__Resolver<Parent, Args, Context, Result>`, per definition the same alias and `Resolvers<Context>` entry — EQUAL, incl.
+the member order of `__resolveType` unions (`C15_resolvers_field_eq`, `_definition_eq`); both files in closed form over
+the same pieces (`C15_resolvers_routes_eq`: the JSON route's file = the SDL route's + a fixed `__*` block + the
+built-in scalar aliases split into referenced / unreferenced), `_routes_perm`, `_routes_agree` (with the reader),
+witnesses for the extras, the order and the lost metadata. Schema declaration file: declaration order of both files in
+closed form (`C15_schemaFile_routes_eq`, under `DeclsOk` and "the SDL route produces the file"; same blocks of `M` in the
+same order; they differ by the position of the built-in scalars and the inserted `__*` blocks —
+`C15_resolvers_definitions_order`), the `__nitrogql_schema` object (`C15_schemaMetadata_routes`: same keys and types;
+written order on the SDL route, query/mutation/subscription on the JSON route; needs `RootKindsDistinct`, "each operation
+kind once", which the checker model does not enforce: `C15_schemaMetadata_duplicate_root_counterexample`), every JSDoc
+comment in text order (`C15_schemaDocs_routes_eq`: the JSON route's are the SDL route's without `@deprecated`;
+`C15_schemaDocs_deprecation_witness`).  The closed forms take the SDL route's document as `M ++ builtins`; the pipeline's
+regrouping of it by `resolve_schema_extensions` is a permutation, and for EVERY permutation the two files are equivalent
+up to order (`C15_sdl_route_any_order`, via `C17_resolvers_perm` / `C17_decls_perm`).
 
 ## OPEN — carried by K/O only
 
-* That the MODELS `CheckOp` / `OpTypes` / `SchemaDecls` are the real `check_operation_document` / printers is the K
-  evidence of C03/C04, C01/C02 and C10 (on SDL inputs); C15's own O stream compares the real CLI on the two routes.
-  In particular `CheckOp.checkOperation` tests "the schema definition has a parsed position" where the real code (since
-  4dcb71b) tests "parsed position OR some root type is set"; the two coincide on parsed documents, and `Bridge.ofIR`
-  marks the schema definition of a schema VALUE as parsed exactly when root types are declared (`Bridge.sees_ofIR`).
-* (moved to theorems — `Props/C15Resolvers.lean`) the resolvers file and the whole-file statements of the schema
-  declaration file. Resolvers file (C10's model `ResolverDecls.resolversFile`): per field the same
-  `__Resolver<Parent, Args, Context, Result>`, per definition the same alias and `Resolvers<Context>` entry — EQUAL, incl.
-  the member order of `__resolveType` unions (`C15_resolvers_field_eq`, `_definition_eq`); both files in closed form over
-  the same pieces (`C15_resolvers_routes_eq`: the JSON route's file = the SDL route's + a fixed `__*` block + the
-  built-in scalar aliases split into referenced / unreferenced), `_routes_perm`, `_routes_agree` (with the reader),
-  witnesses for the extras, the order and the lost metadata. Schema declaration file: declaration order of both files in
-  closed form (`C15_schemaFile_routes_eq`, same blocks of `M` in the same order; they differ by the position of the
-  built-in scalars and the inserted `__*` blocks — `C15_resolvers_definitions_order`), the `__nitrogql_schema` object
-  (`C15_schemaMetadata_routes`: same keys and types; written order on the SDL route, query/mutation/subscription on the
-  JSON route; needs "each operation kind once", which the checker does not enforce:
-  `C15_schemaMetadata_duplicate_root_counterexample`), every JSDoc comment in text order (`C15_schemaDocs_routes_eq`:
-  the JSON route's are the SDL route's without `@deprecated`; `C15_schemaDocs_deprecation_witness`).
-  Still carried by K/O only: that `ResolverDecls` / `SchemaDecls` are the real printers (K of C10 on SDL inputs, the
-  two-route O stream here), argument-description JSDoc inside the resolvers file (the model is the print→parse normal
-  form, comments dropped). The closed forms take the SDL route's document as `M ++ builtins`; the pipeline's regrouping of
-  it by `resolve_schema_extensions` is a permutation, and for EVERY permutation the two files are equivalent up to order
-  (`C15_sdl_route_any_order`, via `C17_resolvers_perm` / `C17_decls_perm`) — which permutation it is, is C11's model.
+* That the MODELS `CheckOp` / `OpTypes` / `SchemaDecls` / `ResolverDecls` are the real `check_operation_document` /
+  printers is the K evidence of C03/C04, C01/C02 and C10 (on SDL inputs only); on the JSON route C15's own O stream
+  compares the real CLI on the two routes.  In particular `CheckOp.checkOperation` tests "the schema definition has a
+  parsed position" where the real code (since 4dcb71b) tests "parsed position OR some root type is set"; the two coincide
+  on parsed documents, and `Bridge.ofIR` (not literally `type_system_to_ast`) marks the schema definition of a schema
+  VALUE as parsed exactly when root types are declared (`Bridge.sees_ofIR`).
+* Argument-description JSDoc inside the resolvers file (the model is the print→parse normal form, comments dropped),
+  diagnostic MESSAGE texts (the checker model yields kind + position), exit codes and the set of files written: O only.
+* WHICH permutation `resolve_schema_extensions` applies to the SDL route's definitions is C11's model (every permutation
+  is covered by `C15_sdl_route_any_order`).
+* The reader model `Introspect.fromIntrospection` on JSON that is NOT `IntrospectSpec.encode` of a schema value with a
+  query root (optional keys absent, other key orders, unknown / repeated keys, omitted built-in scalars or `__*` types,
+  damaged JSON), and the JSON text → tree step: no theorem; K streams `read`, `read-damaged`,
+  `route-json-omitted-builtins`, `route-json-order-cli`.
+* That a document accepted by the type-system checker satisfies `ValidResolved` / `ValidParsed` / `UserNotBuiltin` /
+  `RootKindsDistinct`: not derived anywhere (hypotheses; `RootKindsDistinct` is in fact not enforced by the checker model).
 * Diagnostics of documents outside the exemptions (`docOk`) and of schemas with unresolved references
   (`TypeSystemError` positions point into the schema source on the SDL route only — witness
-  `C15_checkOp_unresolved_reference_counterexample`).
+  `C15_checkOp_unresolved_reference_counterexample`): the routes really differ there.
 
 `routeSdl M = astToSchema (M ++ builtins)` places the built-ins after `M`, as `extend_loaded_schema` does; the real
 pipeline then regroups the definitions in `resolve_schema_extensions` (C11). `≃` does not depend on that order; the K
